@@ -335,7 +335,7 @@ class Aff(V):
 
     @property
     def tag(self):
-        return {'num': 'float', 'dt': 'datetime', 'td': 'timedelta'}[self.kind]
+        return {'num': 'float', 'int': 'int', 'dt': 'datetime', 'td': 'timedelta'}[self.kind]
 
     def is_const(self):
         return self.coeff == 0
